@@ -85,6 +85,11 @@ func genAOF(r *Rng, tier string, idx int, rewrite bool) *Plan {
 			case !rewrite && r.Chance(0.1):
 				p.Ops = append(p.Ops, Op{Kind: "crash", N: int64(r.Intn(8)), S: Pick(r, []string{"kill", "power"})})
 				p.Ops = append(p.Ops, Op{C: r.Intn(2), Args: g.Cmd(r)})
+			case !rewrite && !pairs && r.Chance(0.07):
+				// an I/O error (EIO, ENOSPC, short write) at the k-th operation on the log file inside a write to a
+				// dedicated key that no other command of the plan names
+				p.Ops = append(p.Ops, Op{Kind: "crash", N: int64(r.Intn(3)), S: Pick(r, []string{"eio", "enospc", "short"})})
+				p.Ops = append(p.Ops, Op{C: r.Intn(2), Args: []string{"SET", fmt.Sprintf("fk%d", len(p.Ops)), fmt.Sprintf("fv%d", len(p.Ops))}})
 			case !rewrite && pairs && r.Chance(0.25):
 				// two blind writes to the same key from two connections, run concurrently
 				k := Pick(r, g.Keys)
@@ -145,8 +150,10 @@ type aofRun struct {
 	randKeys              map[string]bool // db/key touched by a write command whose effect is random by design (SPOP)
 	skipped               int
 	hasRewrite            bool
-	concWriters           bool // a REWRITEAOF ran concurrently with writers since the last recovery
-	pairProbe             bool // the recovery in progress is the probe right after two concurrent blind writes
+	concWriters           bool              // a REWRITEAOF ran concurrently with writers since the last recovery
+	pairProbe             bool              // the recovery in progress is the probe right after two concurrent blind writes
+	unacked               map[string]string // db/key of a write answered with an error after an injected I/O error -> value it would have
+	ioFault               string            // "<mode>@<site>" of the first injected I/O error of the run
 }
 
 var runCounter atomic.Int64
@@ -288,9 +295,23 @@ func (a *aofRun) recover(image string, minIdx int, extra []map[string]string, ho
 	a.restores++
 	now := nowMs()
 	got := StripExpired(a.inst.DB.VerifDump(), now, false)
+	// a write that was answered with an error after an injected I/O error is not acknowledged: its own effect
+	// may be present or absent after a restore (nothing else may differ). Its key is dedicated to it.
+	for k, v := range a.unacked {
+		if g, ok := got[k]; ok {
+			if g != v {
+				a.fail("io-error@"+a.ioFault+"/garbage", fmt.Sprintf("%s: key %s of the write that failed with an I/O error was restored as %s (it wrote %s)", how, k, g, v))
+				return false
+			}
+			delete(got, k)
+		}
+	}
 	strip := func(m map[string]string) map[string]string {
 		out := map[string]string{}
 		for k, v := range m {
+			if _, un := a.unacked[k]; un {
+				continue
+			}
 			if i := strings.LastIndex(v, " @"); i >= 0 {
 				if ms, err := strconv.ParseInt(v[i+2:], 10, 64); err == nil && ms <= now {
 					continue
@@ -341,6 +362,14 @@ func (a *aofRun) recover(image string, minIdx int, extra []map[string]string, ho
 			a.fail(lens, fmt.Sprintf("%s: restored dataset differs from an admissible state only in ways explained by [%s] (sync=%s): %s", how, lens, a.p.SK("sync"), DiffData(got, strip(c), "restored", "expected", 5)))
 			return false
 		}
+	}
+	if a.ioFault != "" {
+		what := "log-damaged"
+		if matched >= 0 {
+			what = "acked-lost"
+		}
+		a.fail("io-error@"+a.ioFault+"/"+what, fmt.Sprintf("%s: after an injected I/O error (%s) inside a logged write, acknowledged writes are not restored (restored = state #%d of %d the server passed through, admissible from #%d, sync=%s): %s", how, a.ioFault, matched, len(prev), minIdx, a.p.SK("sync"), diff))
+		return false
 	}
 	if a.pairProbe {
 		a.fail("log-order/"+strings.Fields(how)[0], fmt.Sprintf("%s: the restored dataset is not the one the server held after both commands were acknowledged (restored = state #%d of %d the server passed through): %s", how, matched, len(prev), diff))
@@ -551,6 +580,8 @@ func (a *aofRun) classify(anomaly, how string, got, want map[string]string) stri
 
 type verifhookFile = verifhook.File
 
+func isIOErrMode(m string) bool { return m == "eio" || m == "enospc" || m == "short" }
+
 func runAOF(t *testing.T, p *Plan, prop string) *Outcome {
 	o := &Outcome{Trivial: true}
 	a := &aofRun{t: t, p: p, prop: prop, o: o}
@@ -713,14 +744,42 @@ func (a *aofRun) runSeq() {
 				a.randKeys[fmt.Sprintf("%d/%s", db, args[1])] = true
 			}
 			mode := ""
+			if arm != nil && isIOErrMode(arm.S) && !(op.Kind == "" && len(args) == 3 && strings.HasPrefix(args[1], "fk")) {
+				arm = nil // the dedicated write was shrunk away: no fault
+			}
 			if arm != nil {
 				mode = arm.S
-				a.disk.Arm(int(arm.N), arm.S, "")
+				if isIOErrMode(mode) {
+					a.disk.Arm(int(arm.N), arm.S, "aof.log.")
+				} else {
+					a.disk.Arm(int(arm.N), arm.S, "")
+				}
 				arm = nil
 			}
 			before := len(a.states) - 1
 			res := c.DoSync(args...)
 			a.disk.Disarm()
+			if a.disk.Fired && isIOErrMode(mode) {
+				a.names = append(a.names, "ioerr:"+mode+"@"+a.disk.FiredAt)
+				if a.ioFault == "" {
+					a.ioFault = mode + "@" + a.disk.FiredAt
+				}
+				if res.IsError() {
+					// not acknowledged
+					db := a.embdb
+					if c.TCP {
+						db = a.tcpdb
+					}
+					k := fmt.Sprintf("%d/%s", db, args[1])
+					if a.unacked == nil {
+						a.unacked = map[string]string{}
+					}
+					a.unacked[k] = a.dump()[k]
+					a.s.Probe("ioerr-answered-with-error")
+				} else {
+					a.s.Probe("ioerr-acknowledged")
+				}
+			}
 			if a.disk.Fired && (a.disk.Mode == "kill" || a.disk.Mode == "power") {
 				// crashed inside the command: the command was not acknowledged
 				a.names = append(a.names, "crash:"+mode+"@"+a.disk.FiredAt)
